@@ -2,7 +2,7 @@
 from .. import framework as fw
 from . import control
 
-LEVEL = 'proof'
+LEVEL = 'translation_validation'
 
 
 def run(rep):
